@@ -99,8 +99,8 @@ theorem wire_payload_unique {P : Store} (hP : StoreOK P) {m m' : OutMsg} (hw : W
     (p p' : String) (hp : m.f.get? 9000 = some p) (hp' : m'.f.get? 9000 = some p') : p = p' := by
   have hk : ∀ x : OutMsg, ∀ q, x.f.get? 9000 = some q → x.kind = "4" → Wire P x → False := by
     intro x q hq hk4 hx
-    obtain ⟨b, e, rfl, _⟩ := wire_gap_inv hP hx hk4
-    simp [gapFill, get?_cons, get?_nil] at hq
+    obtain ⟨b, e, l, rfl, _⟩ := wire_gap_inv hP hx hk4
+    simp [gapFillL, gapFill, get?_cons, get?_nil] at hq
   obtain ⟨m0, h0, _, e0⟩ := wire_at hw (fun h => hk m p hp h hw)
   obtain ⟨m0', h0', _, e0'⟩ := wire_at hw' (fun h => hk m' p' hp' h hw')
   rw [hs] at h0'
